@@ -153,6 +153,11 @@ Inductive racc := RAcc (t : table) | RRej (code : N).
 Definition probe_cost (arp : list arp_resp) (mac : bytes) (ip : N) : Z := snd (probe_outcome arp mac ip).
 Definition probe_free (arp : list arp_resp) (mac : bytes) (ip : N) : bool := fst (probe_outcome arp mac ip).
 
+(* "each probe ends within a bounded time": the reply to a message that arrived at r_t leaves not later than the handler's pause
+   plus one probe for every address of the dynamic range and two more (the suggestion, the verification of a REQUEST) *)
+Definition reply_deadline (c : scfg) (r : round) : Z :=
+  (r_t r + 50000000 + (Z.of_nat (length (dyn_addresses (c_db c))) + 2) * arp_tries * arp_timeout)%Z.
+
 Definition accept_discover (c : scfg) (t : table) (r : round) (dst : N) (m : dhcp_msg) (o : decoded_options) : racc :=
   let duid := get_duid c (d_chaddr m) (o_cid o) in
   let free := probe_free (r_arp r) (d_chaddr m) in
@@ -169,11 +174,12 @@ Definition accept_discover (c : scfg) (t : table) (r : round) (dst : N) (m : dhc
     | None => RRej 12
     | Some y =>
       if negb (frame_eqb f (reply_lease c gf_dhcpmsg_MsgTypeOffer m y)) then RRej 13 else
-      if (of_t f <? r_t r)%Z then RRej 14 else
+      if (of_t f <? r_t r)%Z || (reply_deadline c r <? of_t f)%Z then RRej 14 else
       let own := bound_ip (r_t r) duid t in
       let tl := match own with Some _ => of_t f | None => (of_t f - probe_cost (r_arp r) (d_chaddr m) y)%Z end in
+      (* the search-and-hold step begins at the arrival or, after the handler's 50 ms pause, not later than the reply leaves *)
       if offer_valid (c_db c) t (r_t r) (o_reqip o) duid free (Some (y, tl))
-         || offer_valid (c_db c) t (r_t r + 50000000)%Z (o_reqip o) duid free (Some (y, tl)) then
+         || ((r_t r + 50000000 <=? of_t f)%Z && offer_valid (c_db c) t (r_t r + 50000000)%Z (o_reqip o) duid free (Some (y, tl))) then
         let (ok, t') := t_hold_client (c_db c) (of_t f) (Some y) duid hold_ns t in
         if ok then RAcc t' else RRej 15
       else RRej 16
@@ -189,7 +195,7 @@ Definition accept_request (c : scfg) (t : table) (r : round) (src dst : N) (m : 
   | Some desired =>
     if negb (in_managed_range (c_db c) (Some desired)) then silent else
     let nak := match r_outs r with
-               | [f] => if frame_eqb f (reply_nak c m) && (r_t r <=? of_t f)%Z then RAcc t else RRej 21
+               | [f] => if frame_eqb f (reply_nak c m) && (r_t r <=? of_t f)%Z && (of_t f <=? reply_deadline c r)%Z then RAcc t else RRej 21
                | _ => RRej 22 end in
     match bound_ip (r_t r) duid t with
     | None => nak
@@ -200,13 +206,13 @@ Definition accept_request (c : scfg) (t : table) (r : round) (src dst : N) (m : 
       let (free, cost) := probe_outcome (r_arp r) (d_chaddr m) lease in
       if negb free then
         match r_outs r with
-        | [f] => if frame_eqb f (reply_nak c m) && (r_t r <=? of_t f)%Z then RAcc t1 else RRej 24
+        | [f] => if frame_eqb f (reply_nak c m) && (r_t r <=? of_t f)%Z && (of_t f <=? reply_deadline c r)%Z then RAcc t1 else RRej 24
         | _ => RRej 25 end
       else
       match r_outs r with
       | [f] =>
         if negb (frame_eqb f (reply_lease c gf_dhcpmsg_MsgTypeAck m lease)) then RRej 26 else
-        if (of_t f <? r_t r)%Z then RRej 27 else
+        if (of_t f <? r_t r)%Z || (reply_deadline c r <? of_t f)%Z then RRej 27 else
         let (ok, t2) := t_update_client (c_db c) (of_t f) (Some lease) duid (c_lease c) t1 in
         if ok then RAcc t2 else RRej 28
       | _ => RRej 29
